@@ -37,7 +37,7 @@ RTOL = 1e-13
 
 
 def tier_runs(tier):
-    return 1600 if tier == "quick" else 40000
+    return 2400 if tier == "quick" else 40000
 
 
 def tier_budget_s(tier):
@@ -169,7 +169,12 @@ def _gen_query(rng, world, heavy_w):
             # the kernel given in other units than it is stored in (the next plain call must not inherit them)
             q.update(q="psd_dft", iso=i, kw=rng.choice([{"kernel_units": {"loading_basis": "volume_gas", "loading_unit": "cm3"}},
                                                         {"kernel_units": {"loading_unit": "mmoles"}},
-                                                        {"kernel_units": {"pressure_mode": "relative%"}}]))
+                                                        {"kernel_units": {"pressure_mode": "relative%"}},
+                                                        {"bspline_order": 0}, {"bspline_order": 0}]))
+            return q
+        if rng.random() < 0.05:
+            # an adsorbate model the analysis has to complete or refuse (the caller's own dict, re-used from call to call)
+            q.update(q="psd_microporous", iso=i, kw={"adsorbate_model": HK4})
             return q
         q.update(q=what, iso=i)
         if what in ("area_BET", "area_langmuir"):
@@ -350,7 +355,11 @@ def gen_related(rng, world, prev):
         q["kw"] = rng.choice([{}, {"adsorbate_model": ar_like}, {"material_model": solid}, {"adsorbate_model": ar_like, "material_model": solid},
                               {"psd_model": "RY"}, {"material_model": "AlSiOxideIon"}, dict(prev.get("kw") or {}), dict(prev.get("kw") or {}),
                               {"adsorbate_model": HK4}])
-        if rng.random() < 0.4:
+        if (prev.get("kw") or {}).get("adsorbate_model") == HK4 and rng.random() < 0.6:
+            q["kw"] = {"adsorbate_model": HK4}
+            _, pts = _iso_roles(world)
+            q["iso"] = rng.choice(pts)
+        elif rng.random() < 0.4:
             # the same analysis, with the caller's same argument objects, on an isotherm of another gas / temperature
             _, pts = _iso_roles(world)
             q["iso"] = rng.choice(pts)
